@@ -14,7 +14,9 @@ RULE = ('database states are built through the real ircdb API (newUser/setUser/a
         'hand-made and mutated file texts to the real readers and the model readers.  Every other state case is saved under one configuration and '
         'loaded under another (supybot.protocols.irc.strictRfc off->on, on->off, on->on for channels/networks/ignores, with ban masks that addBan accepts '
         'only while strictRfc is off: extbans, masks without ! / @; databases.users.timeoutIdentification 0<->1 for users); the load-time strictRfc is an '
-        'input of the model channel reader.  non-trivial = distinct case with at least one record')
+        'input of the model channel reader.  The dictionary under test is installed as ircdb.users while operations run, so refused operations '
+        '(nick already owned by another account, duplicate hostmask without pre-check, invalid capability) are exercised; every addNick/removeNick call is '
+        'also diffed against the model of the mutators.  non-trivial = distinct case with at least one record')
 TRUSTED = ['str.isspace table, rfc1459 fold table, writer keywords and Creator method names are regenerated from the source (T16)',
            'configuration: T16.CONF_READ_* = options read by the code reachable from each reader / the writers (typed call graph over ircdb.py and '
            'unpreserve.py; calls into utils/ircutils/log are not followed, ircutils.py is checked to contain no conf access); the users reader reaches '
@@ -163,17 +165,40 @@ def apply_user_op(ircdb, d, op):
             u.addCapability(op[2])
         elif k == 'uncap':
             u.removeCapability(op[2])
-        elif k == 'host':
-            if _taken(d, op[2]) or op[2] in u.hostmasks:
+        elif k in ('host', 'host!'):
+            if k == 'host' and (_taken(d, op[2]) or op[2] in u.hostmasks):
+                return
+            if op[2] in u.hostmasks:
                 return
             u.addHostmask(op[2])
             undo = lambda: u.removeHostmask(op[2])
         elif k == 'unhost':
             u.removeHostmask(op[2])
-        elif k == 'nick':
-            u.addNick(op[2], op[3])
-        elif k == 'unnick':
-            u.removeNick(op[2], op[3])
+        elif k in ('nick', 'unnick', 'unnick*'):
+            if k == 'unnick*':          # remove a nick the account really has
+                owned = [(n, v[0]) for n, v in u.nicks.items() if v]
+                if not owned:
+                    return
+                op, k = ['unnick', op[1]] + list(owned[0]), 'unnick'
+            log = _state.get('nicklog')
+            rec = None
+            if log is not None and len(log) < 600:
+                import supybot.ircutils as ircutils
+                rec = {'op': k, 'db': dump_users(d), 'user': dump_user(i, u), 'net': op[2], 'nick': op[3],
+                       'valid': bool(ircutils.isNick(op[3]))}
+            exc = None
+            try:
+                if k == 'nick':
+                    u.addNick(op[2], op[3])
+                else:
+                    u.removeNick(op[2], op[3])
+            except (KeyError, AssertionError) as e:
+                exc = type(e).__name__
+            if rec is not None:
+                rec['after'], rec['exc'] = dump_user(i, u), exc
+                log.append(rec)
+            if exc:
+                return
         elif k == 'rename':
             if _taken(d, op[2]):
                 return
@@ -237,8 +262,13 @@ def canon_load(dump, nxt, exc, after):
 def users_case(ircdb, ops):
     """run ops on a fresh dictionary; returns (dump before, flushed text)"""
     d = new_users(ircdb)
-    for op in ops:
-        apply_user_op(ircdb, d, op)
+    saved = ircdb.users
+    ircdb.users = d          # IrcUser.addNick asks the global users.getUserFromNick whether the nick is taken
+    try:
+        for op in ops:
+            apply_user_op(ircdb, d, op)
+    finally:
+        ircdb.users = saved
     d.flush()
     return dump_users(d), read_text(d.filename)
 
@@ -380,14 +410,18 @@ def gen_user_ops(rng, hostile):
             ops.append(['cap', i, rng.choice(CAPS)])
         elif k < 0.32:
             ops.append(['uncap', i, rng.choice(CAPS)])
-        elif k < 0.47:
+        elif k < 0.44:
             ops.append(['host', i, rng.choice(HOSTS)])
+        elif k < 0.47:
+            ops.append(['host!', i, rng.choice(HOSTS)])
         elif k < 0.50:
             ops.append(['unhost', i, rng.choice(HOSTS)])
         elif k < 0.60:
             ops.append(['nick', i, rng.choice(NETS), rng.choice(NICKS)])
-        elif k < 0.64:
+        elif k < 0.62:
             ops.append(['unnick', i, rng.choice(NETS), rng.choice(NICKS)])
+        elif k < 0.64:
+            ops.append(['unnick*', i])
         elif k < 0.74:
             ops.append(['rename', i, rng.choice(names)])
         elif k < 0.82:
@@ -402,6 +436,10 @@ def gen_user_ops(rng, hostile):
             ops.append(['new'])
         else:
             ops.append(['reg', rng.choice(names), rng.choice(pws), rng.choice(HOSTS + [''])])
+    if rng.random() < 0.2:
+        # two accounts claim the same nick on the same network: the second claim is refused
+        a, net, nick = rng.randrange(4), rng.choice(NETS[:2]), rng.choice(NICKS[:4])
+        ops += [['nick', a, net, nick], ['nick', a + 1, net, nick]]
     return ops
 
 
@@ -774,6 +812,17 @@ def flush_batch(ctx, ircdb, batch):
                 ctx.disagree(inp, mod, impl, 'IgnoresDB.open of the flushed text')
     apply_cfg()
     del batch[:]
+    log, _state['nicklog'] = _state.get('nicklog') or [], []
+    outs = ctx.model([[15, [[wire_user(x) for x in r['db']], wire_user(r['user']), r['net'], r['nick'], r['valid']]] if r['op'] == 'nick'
+                      else [16, [wire_user(r['user']), r['net'], r['nick']]] for r in log])
+    for r, o in zip(log, outs):
+        inp = {'db': 'nick-call', 'call': {k: r[k] for k in ('op', 'db', 'user', 'net', 'nick', 'valid')}}
+        ctx.case('mutator-' + r['op'] + ('-refused' if r['exc'] else ''), inp)
+        if o is None:
+            continue
+        mod, impl = [dec_user(o[0]), wire.o(o[1], lambda c: wire.EXN[c])], [r['after'], r['exc']]
+        if mod != impl:
+            ctx.disagree(inp, mod, impl, 'IrcUser.addNick/removeNick')
 
 
 def canon_chans_o(dump):
@@ -896,6 +945,10 @@ CORPUS = [
                                ['sts', 'oftc', 'a.b', 'p']]},
     {'db': 'ignores', 'ops': [['add', 'a!b@c', 0], ['add', 'q!w@e', NOW + 50.5], ['add', 'A!B@C', NOW - 10]]},
     {'db': 'ignores', 'ops': [['add', '#x!y@z', 0]]},
+    {'db': 'users', 'ops': [['reg', 'a', 'pw', ''], ['reg', 'b', 'pw', ''], ['nick', 0, 'libera', 'alice'], ['nick', 1, 'libera', 'alice']]},
+    {'db': 'users', 'ops': [['reg', 'a', 'pw', 'x!y@z'], ['reg', 'b', 'pw', ''], ['host!', 1, 'x!y@z'], ['host!', 1, 'X!Y@Z'], ['cap', 1, 'a b'],
+                            ['cap', 1, '-owner'], ['nick', 0, 'n 3', 'alice'], ['nick', 1, 'libera', 'a b'], ['unnick', 1, 'libera', 'nobody'],
+                            ['nick', 0, 'libera', 'alice'], ['nick', 0, 'libera', 'alice'], ['nick', 1, 'Net2', 'alice'], ['nick', 1, 'libera', 'alice']]},
     {'db': 'channels', 'ops': [['ban', '#alpha', 'a!b@c', 0], ['ban', '#help', '$a:Troll', 0], ['flags', '#zeta', True, True]],
      'cfg': {'save': {'strict': False}, 'load': {'strict': True}}},
     {'db': 'channels', 'ops': [['ban', '#help', 'nomask', 1700000000], ['ban', '#help', '~q:nick!*@*', 0]],
@@ -922,6 +975,7 @@ def run(ctx):
     ircdb = _ircdb()
     rng = ctx.rng
     batch = []
+    _state['nicklog'] = []
     for c in CORPUS:
         d = check_state(ctx, ircdb, c['db'], c['ops'], 'corpus-' + c['db'], batch, c.get('cfg'))
         if d:
